@@ -12,8 +12,14 @@ from harness.props import ruledrv
 from harness.props.ruledrv import PathArg
 
 
+PARTS_GEN = [None]      # optional override: generator of the parts of path arguments (C11 uses spec-expressible parts)
+
+
 def path_arg(rng, doc):
-    rparts = gen.path_recipe(rng, doc, maxlen=2, p_prim=0.75) or [gen.prim_part(rng, doc)]
+    if PARTS_GEN[0] is not None:
+        rparts = PARTS_GEN[0](rng, doc)
+    else:
+        rparts = gen.path_recipe(rng, doc, maxlen=2, p_prim=0.75) or [gen.prim_part(rng, doc)]
     concrete = all(isinstance(p, tuple) for p in rparts)
     dt = rng.choice(["none", "none", "none", "length", "dtype", "map_keys"])
     mt = "none" if concrete else rng.choice(["none", "first", "last", "all", "single"])
